@@ -17,7 +17,7 @@ import (
 )
 
 func init() {
-	register(&Prop{ID: "C14", N: 60000, Quick: 2500,
+	register(&Prop{ID: "C14", Witness: true, N: 60000, Quick: 2500,
 		Assume: []string{"reference = stdlib regexp on the same bytes; offsets at>0 are compared only for patterns without look-around (stdlib has no search-from-offset API that keeps look-behind context), where slicing the haystack is exact", "engines are built through their exported constructors; 'declined' is recognised only where documented: CanHandle()==false, onepass.Build error, lazy compile error"},
 		Rule:   "cases G(D,i) (ASCII and valid-UTF-8 regions); for each pattern every engine is driven directly on the case's haystacks plus all strings of length <= 3 over three pattern-derived symbols, at every start offset (<= 12): PikeVM (Search, SearchAt, IsMatch, SearchWithCaptures(At), SearchWithSlotTable(At), SearchWithSlotTableCaptures(At), SearchWithCapturesInSpan, SearchBetween), BoundedBacktracker (fresh and reused state), lazy.DFA forward (Find, FindAt, SearchAt, SearchAtAnchored, IsMatch, IsMatchAt) and reverse (SearchReverse, IsMatchReverse) with one cache reused across all calls under 6 index-chosen capacity/clear-limit settings from {64,200,400,800,2Ki,64Ki,2Mi} × {0,1,5,1000} × DeterminizationLimit{10,1000}, onepass.DFA (Search, IsMatch); one evaluation = one engine call compared with the reference quantity; distinct_nontrivial = distinct (pattern, haystack, offset) triples with a reference match",
 		Triage: triageC14,
